@@ -1,5 +1,6 @@
 """Generate the verification conditions of one function against one contract."""
 import ast
+import re
 import z3
 from . import fl, extract
 from .vals import SArr, SList, SObj, SFunc, SStr, Unsupported, intern_str, SYMLOG
@@ -192,6 +193,66 @@ def verify_lemma(db, lm, engine_cls=Engine):
         have = set(h.get_id() for h in ob.hyps)
         ob.hyps = [a for a in ex.axioms if a.get_id() not in have] + ob.hyps
     return ex, ex.obligations
+
+
+def verify_alias(db, cc, target=None):
+    """frame obligations by may-alias abstract interpretation (pv/alias.py): one obligation per parameter root --
+    every in-place effect on a buffer of that parameter lies inside the contract's assigns(...) set"""
+    from . import alias
+    target = target or cc.target
+    an, params, res, fi = alias.analyse(cc, target)
+    assigns = [a.strip("'\"") for a in (cc.assigns or [])]
+    obs = []
+    roots = [p for p in params]
+    bad = {p: [] for p in roots}
+    for e in an.effects:
+        if alias.is_fresh(e.buf) or alias.allowed(e.buf, assigns):
+            continue
+        root = re.split(r"[.\[{]", e.buf)[0]
+        bad.setdefault(root, []).append(e)
+    for p in sorted(bad):
+        effs = bad[p]
+        if not effs and alias.allowed(p, assigns):
+            continue   # the whole parameter is assignable: nothing to show
+        definite = any(e.definite for e in effs)
+        seen, lines = set(), []
+        for e in effs:
+            t = repr(e)
+            if t not in seen:
+                seen.add(t)
+                lines.append(t)
+        text = "frame: no in-place write reaches %s outside assigns(%s)" % (p, ", ".join(assigns))
+        if lines:
+            text += "  --  " + "; ".join(lines[:6])
+        ob = Obligation("%s#post#frame.%s" % (target, p), "post", [], z3.BoolVal(not effs), target, fi.node.lineno, text, [])
+        ob.forced = "unsat" if not effs else ("sat" if definite else "unknown")
+        obs.append(ob)
+    # which fields of self may share memory with a parameter on return (the machine keeps references to the caller's data)
+    keep = cc.options.get("fields_aliasing_params")
+    if keep is not None:
+        selfv = an.top_args[0] if params and params[0] == "self" else None
+        found = {}
+        for fld, val in sorted((selfv.fields or {}).items()) if selfv is not None else []:
+            arrp = [p for p in params[1:] if isinstance(cc.types.get(p), dict) or str(cc.types.get(p)) in ("ds", "dataset")
+                    or "[" in str(cc.types.get(p))]
+            shared = sorted(b for b in alias.reach(val) if not alias.is_fresh(b) and re.split(r"[.\[{]", b)[0] in arrp)
+            if shared:
+                found[fld] = shared
+        extra = sorted(set(found) - set(keep))
+        text = "fields of self that may share memory with a parameter on return are among %s" % (sorted(keep),)
+        if extra:
+            text += "  --  " + "; ".join("self.%s may alias %s" % (f, ", ".join(found[f][:3])) for f in extra)
+        ob = Obligation("%s#post#aliases.self" % target, "post", [], z3.BoolVal(not extra), target, fi.node.lineno, text, [])
+        ob.forced = "unsat" if not extra else "unknown"
+        obs.append(ob)
+    if an.visited == 0:
+        raise Unsupported("alias analysis visited no statement of %s" % target)
+    rec = fi.record()
+    rec["no_fuzz"] = True
+    rec["alias"] = {"statements_visited": an.visited, "functions_inlined": sorted(an.inlined),
+                    "unmodelled_calls": sorted(set(an.unmodelled))[:40], "assumed": sorted(an.assumed),
+                    "effects": len(an.effects), "writes_inside_assigns": sorted(set(e.buf for e in an.effects if not alias.is_fresh(e.buf) and alias.allowed(e.buf, assigns)))}
+    return obs, rec
 
 
 def verify_tables(db, cc):
